@@ -12,6 +12,15 @@ NOTES = ("All checks: bin/check <ID> --tier quick|thorough; VERIF_SEED seeds con
 _TLC = "explicit TLA+ spec + TLC: exhaustive design check, TLC-generated cases replayed into the Go code, recorded traces judged by a TLC trace module"
 
 CHECKS = {
+    "C03": {
+        "level": "model_checking",
+        "text": "ImportTracker.tla states the permissive contract of the import table (exactly the referenced foreign packages; valid non-keyword identifiers; injective; "
+                "stable; ask-twice; printed qualifier = bound name; own package unqualified) and a code-shaped candidate search that TLC proves total for every addition "
+                "order (and shows partial without the fall-back). TLC enumerates every reference history over a collision-prone 14-path universe closed by each reference "
+                "kind; each is rendered through a real raw namer + tracker with the whole table logged after every step and ImportTrackerTrace.tla judges every step.",
+        "note": "Chosen names are bound from the log, not prescribed. Written-file side (import block of real generated files) is judged by the genfile family once C01 is built.",
+        "technique": _TLC,
+    },
     "C09": {
         "level": "model_checking",
         "text": "Template.tla holds a declarative reference for T/Sprintf/Comment/GoDirective/Snippets written from the statement and a scanner-shaped machine "
